@@ -9,42 +9,33 @@ namespace PolyVerif
 namespace C06
 open Gltf
 
-/-- all scene hypotheses together: well-formed meshes (admissible attribute data of one length, indices below it,
-    a written attribute whenever there are indices), admissible GPU instances, pairwise different glTF attribute names
-    within a mesh -/
-def SceneWF (s : Scene) : Prop := SceneOK2 s ∧ ∀ m ∈ s.meshHeap, KeysOK m
-
-/-- `C06_scene_full` with its third conjunct (`dedupOK`, a Bool on scene × document) replaced by the table-level dedup
-    invariants: for EVERY well-formed scene the writer accepts, the written document and buffer satisfy `valid` (all of
-    it) and `carriesScene` (all of it), the material tracker stores equal-by-value materials once with pairwise
-    non-`equal` entries, and the mesh table is a partial injection (mesh id, material index) ↦ mesh index.
-    MISSING for `C06_scene_full`: the conjunct `dedupOK s w.doc = true` itself, i.e. (i) `matCarried`: the material a
-    model's primitive references SHOWS that model's material (factors, colours, and each texture reference resolving through
-    textures → images / samplers to the texture's URI, sampler and transform), (ii) the node-level restatement of the two
-    table invariants, (iii) no duplicate entries in `textures` / `images` / `samplers`. -/
-theorem gltf_scene_full_partial (s : Scene) (w : W) (hs : SceneWF s) (h : writeScene s = .ok w) :
-    valid w.doc w.buf = true ∧ carriesScene s w.doc w.buf = true
-    ∧ MatT (fun i => s.texHeap[i]?) w ∧ MeshT w :=
-  ⟨gltf_scene_valid s w hs.1 h, gltf_carries_scene s w ⟨hs.1.1, hs.2⟩ h, gltf_dedup_consistent s w h⟩
+/-- all scene hypotheses together.  `SceneOK`: every heap mesh is well formed (`MeshWF`: each written attribute has `dim`
+    components per vertex that fit the component type, no ±Inf, no NaN in a FLOAT VEC4, ONE common length `attrLen`; every
+    index < `attrLen` ≤ 2³²) and GPU instances are admissible (`InstWF`).  `TopoOK`: triangle or point topology.
+    `ExtCongr`: the meaning of `eqKey` (material-extension values of the scene that compare `==` in Go — same id, same
+    key — are the same value).
+    EXCLUDED input classes (accepted by the writer, outside these hypotheses): meshes whose attribute arrays have different
+    lengths or with an index ≥ the vertex count (not well-formed meshes; written as they are); ±Inf attribute data and NaN
+    in a FLOAT VEC4 / an instance rotation (`encoding/json` refuses the document); line / line-strip / line-loop / quad
+    topologies (written without a mode, i.e. as TRIANGLES — observation, outside the property's quantifier).
+    NOT hypotheses any more (consequences of acceptance since fd26630): pairwise different glTF attribute names; a written
+    attribute whenever there are indices. -/
+def SceneWF (s : Scene) : Prop := SceneOK s ∧ TopoOK s ∧ ExtCongr s
 
 /-- the three oracle predicates for one scene and the state the writer reached -/
 def C06_scene_full_for (s : Scene) (w : W) : Prop :=
   valid w.doc w.buf = true ∧ carriesScene s w.doc w.buf = true ∧ dedupOK s w.doc = true
 
-/-- `SceneWF` plus the meaning of `eqKey` (`ExtCongr`: material-extension values of the scene that compare `==` in Go —
-    same id, same key — are the same value) -/
-def SceneWF2 (s : Scene) : Prop := SceneWF s ∧ ExtCongr s
-
 /-- THE SCENE-LEVEL PROPERTY (everything except the alignment clause, which is false of the code:
-    `gltf_alignment_counterexample`).  For EVERY well-formed scene the writer accepts, the written document and buffer
-    satisfy `valid` (structural consistency: lengths, every reference, every byte range, min/max, index values, attribute
-    counts, extensions declared), `carriesScene` (decoding returns exactly the stored image of every model's attributes
-    and indices; node and instance transforms are the model's) and `dedupOK` (shared meshes / materials / textures are
-    stored once and referenced consistently; every model's material is shown by the material it references).
+    `gltf_alignment_counterexample`).  For every scene satisfying `SceneWF` that the writer accepts, the written document and
+    buffer satisfy `valid` (structural consistency: lengths, every reference, every byte range, min/max, index values,
+    attribute counts, extensions declared), `carriesScene` (decoding returns exactly the stored image of every model's
+    attributes and indices; node and instance transforms are the model's) and `dedupOK` (shared meshes / materials /
+    textures are stored once and referenced consistently; every model's material is shown by the material it references).
     `C06_scene_full` (the same without hypotheses) is NOT a theorem and is not expected to be: an ill-formed mesh (index
     out of range, attribute arrays of different lengths) is written as it is. -/
-theorem gltf_scene_full (s : Scene) (w : W) (hs : SceneWF2 s) (h : writeScene s = .ok w) : C06_scene_full_for s w :=
-  ⟨gltf_scene_valid s w hs.1.1 h, gltf_carries_scene s w ⟨hs.1.1.1, hs.1.2⟩ h, gltf_dedup_ok s w hs.1.1.1 hs.2 h⟩
+theorem gltf_scene_full (s : Scene) (w : W) (hs : SceneWF s) (h : writeScene s = .ok w) : C06_scene_full_for s w :=
+  ⟨gltf_scene_valid s w hs.1 h, gltf_carries_scene s w ⟨hs.1, hs.2.1⟩ h, gltf_dedup_ok s w hs.1 hs.2.2 h⟩
 
 /-! ### non-vacuity of the scene hypotheses -/
 
@@ -68,32 +59,72 @@ def exScene : Scene :=
     lights := [] }
 
 /-- non-vacuity of the scene hypotheses: a triangle with positions and colours -/
+theorem exMesh_wf : MeshWF exMesh := by
+  refine ⟨?_, ?_, ?_⟩
+  · rw [exMesh_written, exMesh_attrLen]
+    intro a ha
+    simp only [List.mem_cons, List.mem_nil_iff, or_false] at ha
+    rcases ha with rfl | rfl <;>
+      simp [VecsOK, attrComp, Comp.size, posInf32, negInf32, isNaN32]
+  · rw [exMesh_attrLen]; simp [exMesh]
+  · rw [exMesh_attrLen]; decide
+
+/-- non-vacuity of the scene hypotheses: a triangle with positions and colours -/
 theorem exScene_wf : SceneWF exScene := by
   unfold exScene
-  refine ⟨⟨⟨?_, ?_⟩, ?_⟩, ?_⟩
-  · intro m hm
-    simp only [List.mem_singleton] at hm; subst hm
-    refine ⟨?_, ?_, ?_⟩
-    · rw [exMesh_written, exMesh_attrLen]
-      intro a ha
-      simp only [List.mem_cons, List.mem_nil_iff, or_false] at ha
-      rcases ha with rfl | rfl <;>
-        simp [VecsOK, attrComp, Comp.size, posInf32, negInf32, isNaN32]
-    · rw [exMesh_attrLen]; simp [exMesh]
-    · rw [exMesh_attrLen]; decide
+  refine ⟨⟨?_, ?_⟩, ?_, ?_⟩
+  · intro m hm; simp only [List.mem_singleton] at hm; subst hm; exact exMesh_wf
   · intro md hmd
     simp only [List.mem_singleton] at hmd; subst hmd
     intro t ht; cases ht
-  · intro m hm
-    simp only [List.mem_singleton] at hm; subst hm
-    left; rw [exMesh_written]; simp
-  · intro m hm
-    simp only [List.mem_singleton] at hm; subst hm
-    unfold KeysOK; rw [exMesh_written]
-    simp [gltfAttrName]
+  · intro m hm; simp only [List.mem_singleton] at hm; subst hm; exact Or.inl rfl
+  · intro a ha; simp at ha
 
-theorem exScene_wf2 : SceneWF2 exScene :=
-  ⟨exScene_wf, by intro a ha; simp [exScene] at ha⟩
+def richMat : PMaterial :=
+  { name := "m", alphaMode := none, alphaCutoff := none, hasPbr := true, baseColor := none, metallic := none, roughness := none,
+    baseColorTex := some 0, metalRoughTex := none, emissive := none, normalTex := some (0, none), occlusionTex := none, exts := [] }
+
+def richScene : Scene :=
+  { meshHeap := [exMesh],
+    texHeap := [{ uri := "a.png", sampler := some { mag := 9729, min := 9728, wrapS := 10497, wrapT := 10497, name := "s" },
+                  xform := some [1, 2], xformRequired := true }],
+    matHeap := [richMat, richMat],
+    models := [{ name := "a", mesh := some 0, material := some 0, translation := some [1, 2, 3], rotation := none, scale := none,
+                 instances := [[0, 0, 0, 1, 1, 1, 0, 0, 0, 1]] },
+               { name := "b", mesh := some 0, material := some 1, translation := none, rotation := none, scale := none,
+                 instances := [] },
+               { name := "c", mesh := some 0, material := none, translation := none, rotation := none, scale := none,
+                 instances := [] }],
+    lights := [[0, 0, 0, 0, 0, 0, 0, 0, 0, 0, 0, 0]] }
+
+theorem richScene_accepted : (match writeScene richScene with
+    | .ok w => (w.meshes.length, w.materials.length, w.nodes.length, w.textures.length)
+    | .error _ => (0, 0, 0, 0)) = (2, 1, 4, 1) := by decide +kernel
+
+theorem richScene_wf : SceneWF richScene := by
+  refine ⟨⟨?_, ?_⟩, ?_, ?_⟩
+  · intro m hm; simp only [richScene, List.mem_singleton] at hm; subst hm; exact exMesh_wf
+  · intro md hmd
+    simp only [richScene, List.mem_cons, List.mem_nil_iff, or_false] at hmd
+    rcases hmd with rfl | rfl | rfl
+    · intro t ht
+      simp only [List.mem_singleton] at ht; subst ht
+      simp [posInf32, negInf32, isNaN32]
+    · intro t ht; cases ht
+    · intro t ht; cases ht
+  · intro m hm; simp only [richScene, List.mem_singleton] at hm; subst hm; exact Or.inl rfl
+  · intro a ha b hb e he
+    simp only [richScene, List.mem_cons, List.mem_nil_iff, or_false] at ha
+    rcases ha with rfl | rfl <;> simp [richMat] at he
+
+/-- NON-VACUITY, jointly: a scene with a mesh shared by three models, two equal-by-value materials (stored once), a
+    texture with sampler and required transform used twice by them, GPU instances and a light satisfies the hypotheses of
+    `gltf_scene_full` AND is accepted by the writer (2 meshes, 1 material, 4 nodes, 1 texture) -/
+theorem richScene_ok : ∃ w, writeScene richScene = .ok w ∧ SceneWF richScene ∧ C06_scene_full_for richScene w := by
+  have hacc := richScene_accepted
+  cases h : writeScene richScene with
+  | error e => rw [h] at hacc; simp at hacc
+  | ok w => exact ⟨w, rfl, richScene_wf, gltf_scene_full richScene w richScene_wf h⟩
 
 end C06
 end PolyVerif
